@@ -445,8 +445,9 @@ class _Gen:
         m.doc = self.doc(f'module #{m.mid}', [])
         if f.docstyle == 'epytext' and m.doc and r.random() < .3:
             # section titles (same syntax in epytext and reST): the page gets a table of contents
-            t1, t2 = f'Section s{r.randrange(10**5):05d}', f'Other part s{r.randrange(10**5):05d}'
-            m.doc += f'\n\n{t1}\n{"=" * len(t1)}\n\nText of the section.\n\n{t2}\n{"=" * len(t2)}\n\nMore text.'
+            # (one title whose identifier starts with the very prefix the writer puts in front of docstring identifiers)
+            t1, t2 = f'{r.choice(["Section", "RST part", "rst"])} s{r.randrange(10**5):05d}', f'Other part s{r.randrange(10**5):05d}'
+            m.doc += f'\n\n{t1}\n{"=" * len(t1)}\n\nText of the section, see `{t2}`_ and `{t1}`_.\n\n{t2}\n{"=" * len(t2)}\n\nMore text, back to `{t1}`_.'
         visible: List[Tuple[str, Optional[int]]] = []       # class expressions usable as bases here
         refs: List[str] = []
         local_names: Dict[str, Tuple[str, Any]] = {}
